@@ -46,6 +46,38 @@ func toOptions(p *ref.Policy) *validate.Options {
 	}
 }
 
+// assignOptions overwrites the exported settings of a re-used validate.Options value, field by field, the
+// way a caller keeping one value around would (a whole-struct copy would also wipe any hidden state).
+func assignOptions(dst, src *validate.Options) {
+	dst.HeaderOptions.MinimumQeSvn = src.HeaderOptions.MinimumQeSvn
+	dst.HeaderOptions.MinimumPceSvn = src.HeaderOptions.MinimumPceSvn
+	dst.HeaderOptions.QeVendorID = src.HeaderOptions.QeVendorID
+	d, t := &dst.TdQuoteBodyOptions, &src.TdQuoteBodyOptions
+	d.MinimumTeeTcbSvn, d.MrSeam, d.TdAttributes, d.Xfam, d.MrTd, d.MrConfigID = t.MinimumTeeTcbSvn, t.MrSeam, t.TdAttributes, t.Xfam, t.MrTd, t.MrConfigID
+	d.MrOwner, d.MrOwnerConfig, d.Rtmrs, d.ReportData, d.AnyMrTd = t.MrOwner, t.MrOwnerConfig, t.Rtmrs, t.ReportData, t.AnyMrTd
+}
+
+// reusedOptionsProblem validates the case twice through an options value that earlier validated other
+// cases; both verdicts must equal the verdict through a fresh value.
+func reusedOptionsProblem(c *pcase, shared *validate.Options, freshAccepted bool) string {
+	q, err := ref.ParseQuote(c.Quote)
+	if err != nil {
+		return ""
+	}
+	m := mon.BuildMessage(q)
+	for round := 1; round <= 2; round++ {
+		assignOptions(shared, toOptions(&c.Policy))
+		var verr error
+		if pv, st := mon.Guard(func() { verr = validate.TdxQuote(m, shared) }); pv != "" {
+			return "validation through a re-used options value panics: " + pv + "\n" + st
+		}
+		if (verr == nil) != freshAccepted {
+			return fmt.Sprintf("verdict through an options value that earlier validated other quotes (use %d: accepted=%v, err=%v) differs from the verdict through a fresh value (accepted=%v)", round, verr == nil, verr, freshAccepted)
+		}
+	}
+	return ""
+}
+
 // policyProblem runs the library's validation and the reference evaluator.
 func policyProblem(c *pcase) (problem string, accepted bool, exact bool) {
 	q, err := ref.ParseQuote(c.Quote)
@@ -381,12 +413,44 @@ func c08(x *mon.Ctx) {
 		}
 		add("random-combination", fmt.Sprint(i), qp, p)
 	}
+	// ---- structurally odd quote messages under a full policy: an error or success, never a crash
+	{
+		qp := policyQuote(r)
+		q, _ := ref.ParseQuote(qp.Bytes())
+		full := toOptions(&ref.Policy{QeVendorID: q.QeVendorID, MinTeeTcbSvn: make([]byte, 16), MrSeam: q.MrSeam, TdAttributes: q.TdAttributes, Xfam: q.Xfam, MrTd: q.MrTd,
+			MrConfigID: q.MrConfigID, MrOwner: q.MrOwner, MrOwnerConfig: q.MrOwnerConfig, ReportData: q.ReportData, Rtmrs: [][]byte{q.Rtmrs[0], q.Rtmrs[1], q.Rtmrs[2], q.Rtmrs[3]}, AnyMrTd: [][]byte{q.MrTd}, MinQeSvn: 1, MinPceSvn: 1})
+		for _, mm := range structuralMutations(mon.BuildMessage(q)) {
+			for _, o := range []*validate.Options{full, {}} {
+				var verr error
+				pv, st := mon.Guard(func() { verr = validate.TdxQuote(mm.M, o) })
+				if pv != "" {
+					x.Violation("odd-quote-message", mm.Name, "validate.TdxQuote panics: "+pv+"\n"+st, "none", mm.Name)
+				}
+				x.Note("odd-quote-message", mm.Name, verr == nil, pv != "", pv == "")
+			}
+		}
+	}
+	pool := make(chan *validate.Options, 64)
 	x.Each(len(cases), func(i int) {
 		c := cases[i]
 		x.Crumb(i, "policy", c)
 		p, acc, exact := policyProblem(c)
 		if p != "" {
 			x.Violation(c.Class, c.Param, p, "policy", c)
+		} else {
+			var shared *validate.Options
+			select {
+			case shared = <-pool:
+			default:
+				shared = &validate.Options{}
+			}
+			if rp := reusedOptionsProblem(c, shared, acc); rp != "" {
+				x.Violation("reused-options/"+c.Class, c.Param, rp, "policy", c)
+			}
+			select {
+			case pool <- shared:
+			default:
+			}
 		}
 		x.Note(c.Class, c.Param, acc, strings.HasPrefix(p, "validation panics"), exact || p == "")
 		if c.Class == "exact/mr_owner" && strings.HasPrefix(c.Param, "last-differs") || c.Class == "rtmrs" && i%977 == 0 {
